@@ -34,6 +34,7 @@ dhist  one PtychographyDatasetRaster: _set_intensities_com (explicit argument or
 from __future__ import annotations
 
 import numpy as np
+from hypothesis import strategies as st
 
 from vq import core
 from vq.gen import c18_data as gd
@@ -211,6 +212,68 @@ def _check_com(ctx, case):
 
 
 # ------------------------------------------------------------------------------------------------
+# kind "bigcom": the same judgements as "com" on a dataset of 10^6 .. 2*10^7 values
+# ------------------------------------------------------------------------------------------------
+def _check_bigcom(ctx, case):
+    torch, Dataset4dstem, Origin, Raster, _pu = _q()
+    a, b = case["scan"]
+    H, W = case["det"]
+    n = a * b
+    arr = gd.make_patterns(case)
+    mask = gd.make_mask(case)
+    exp_r, exp_c = ref.com(arr)
+    mexp_r, mexp_c = ref.com(arr, mask) if mask is not None else (exp_r, exp_c)
+    # float32 results: half an ulp of a coordinate up to max(H, W) is 6e-8 * side (measured 1.5e-7 *
+    # side over detectors up to 256 px)
+    tol = TOL_COM + 2e-6 * max(H, W)
+    ctx.record(
+        case,
+        H != W and arr.size >= 2**19,
+        [
+            "kind:bigcom",
+            "bigcom_size:" + case["near"],
+            "bigcom_values>=2^%d" % int(np.floor(np.log2(arr.size))),
+            "mask:" + (case["mask"]["type"] if case["mask"] else "none"),
+        ],
+    )
+    with ctx.sut(case, "CenterOfMassOriginModel.from_dataset"):
+        om = Origin.from_dataset(Dataset4dstem.from_array(arr.copy(), units=list(UNITS)), device="cpu")
+    got = None
+    for bs in list(case["batches"]):
+        with ctx.sut(case, "calculate_origin(max_batch_size=%r)" % (bs,)):
+            om.calculate_origin(bs)
+            m = _np64(om.origin_measured)
+        if m.shape != (n, 2):
+            raise core.Violation("calculate_origin(%r): origin_measured has shape %s" % (bs, m.shape), case)
+        got = (m[:, 0].reshape(a, b), m[:, 1].reshape(a, b))
+        _judge_pair(case, "calculate_origin(max_batch_size=%r) vs float64 oracle (%d values)" % (bs, arr.size), got[0], got[1], exp_r, exp_c, tol)
+    del om
+    with ctx.sut(case, "PtychographyDatasetRaster.from_array"):
+        pd = Raster.from_array(arr.copy(), units=list(UNITS), verbose=0)
+    paths = {}
+    for vec in (True, False):
+        name = "vectorised" if vec else "looped"
+        try:
+            with _fit_sut(ctx, case, "_set_intensities_com(%s, mask=%s, fit=%r)" % (name, "yes" if mask is not None else "no", case["fit"])):
+                pd._set_intensities_com(
+                    pd.intensities_4d.copy(),
+                    dp_mask=None if mask is None else mask.copy(),
+                    fit_function=case["fit"],
+                    vectorized_calculation=vec,
+                )
+                cm = _np64(pd.com_measured)
+        except _ExactFitRaised:
+            return
+        if cm.shape != (2, a, b):
+            raise core.Violation("%s path: com_measured has shape %s" % (name, cm.shape), case)
+        _judge_pair(case, "_set_intensities_com %s path vs float64 oracle (%d values, scan %dx%d)" % (name, arr.size, a, b), cm[0], cm[1], mexp_r, mexp_c, tol)
+        paths[name] = cm
+    _judge_pair(case, "looped path vs vectorised path", paths["looped"][0], paths["looped"][1], paths["vectorised"][0], paths["vectorised"][1], 2 * tol)
+    if mask is None:
+        _judge_pair(case, "dataset model (vectorised) vs origin model", paths["vectorised"][0], paths["vectorised"][1], got[0], got[1], 2 * tol)
+
+
+# ------------------------------------------------------------------------------------------------
 # kind "fit"
 # ------------------------------------------------------------------------------------------------
 def _check_fit(ctx, case):
@@ -380,6 +443,7 @@ def _check_ohist(ctx, case):
         om = Origin.from_dataset(Dataset4dstem.from_array(versions[cur].copy(), units=list(UNITS)), device="cpu")
     measured = None  # None | ("surface", zr, zc, kind) | ("other",)
     fitted_int = None  # integer origins currently stored in origin_fitted, else None
+    had_identity_shift = False
     for i, st_ in enumerate(steps):
         op = st_["op"]
         tag = "step %d/%d %s" % (i + 1, len(steps), op)
@@ -408,6 +472,7 @@ def _check_ohist(ctx, case):
             )  # fmt: skip
             pk = planar_kind(cur)
             measured = ("surface", exp_r, exp_c, pk) if pk else ("other",)
+            ctx.count("ohist_judged:measure")
         elif op == "set_measured":
             zr, zc = ref.plane((a, b), st_["surf_r"]), ref.plane((a, b), st_["surf_c"])
             with ctx.sut(case, tag):
@@ -435,6 +500,8 @@ def _check_ohist(ctx, case):
             with ctx.sut(case, tag):
                 om.origin_fitted = torch.tensor(np.asarray(origins, dtype=np.float32))
             fitted_int = origins * n if len(origins) == 1 else origins
+            if not any(r or c for r, c in fitted_int):
+                ctx.count("ohist_origins:all_at_target")
         elif op == "shift":
             if fitted_int is None:
                 ctx.count("ohist_skipped:shift_without_integer_origin")
@@ -444,6 +511,12 @@ def _check_ohist(ctx, case):
                 sh = om.shifted_tensor
             _judge_roll(case, "%s: shift_origin_to of the data the model currently holds (version %d)" % (tag, cur), sh, versions[cur].astype(np.float32), fitted_int)
             ctx.count("ohist_judged:shift")
+            identity = not any(r or c for r, c in fitted_int)
+            if identity:
+                ctx.count("ohist_judged:identity_shift")
+            elif had_identity_shift:
+                ctx.count("ohist_judged:shift_after_identity_shift")
+            had_identity_shift = had_identity_shift or identity
         else:
             raise ValueError("unknown op %r" % op)
 
@@ -544,6 +617,8 @@ def check(ctx, case):
         return _check_fit(ctx, case)
     if k == "shift":
         return _check_shift(ctx, case)
+    if k == "bigcom":
+        return _check_bigcom(ctx, case)
     if k == "ohist":
         return _check_ohist(ctx, case)
     if k == "dhist":
@@ -554,6 +629,7 @@ def check(ctx, case):
 SIDES_QUICK = 128
 SIDES_THOROUGH = 600
 MODES = ["bilinear", "nearest", "bicubic"]
+BIG_EXPS = [20, 21, 22, 23, 24]
 
 
 def search(ctx):
@@ -569,4 +645,16 @@ def search(ctx):
     for side in range(2, top + 1):
         for mode in MODES:
             core.run_given(ctx, "side-%d-%s" % (side, mode), gd.side_shift_cases(side, mode), lambda c: check(ctx, c), per)
+    # dataset sizes right below / above every power of two from 2^20 to 2^24 values (enumerated): the
+    # range where implementations start to work in blocks
+    # Hypothesis' first example is always the all-minimal one (the same dataset in every run), and a
+    # case costs up to 2 s: the descriptions are drawn by Hypothesis (first example dropped), then judged
+    # one by one (no shrinking for these)
+    combos = [(e, sd) for e in BIG_EXPS for sd in ("below", "above")]
+    drawn = []
+    core.run_given(ctx, "big", st.tuples(*[gd.big_com_cases(e, sd) for e, sd in combos]), drawn.append, 2 if not ctx.thorough else 3, shrink=False)
+    for group in drawn[1:] or drawn:
+        for c in group:
+            check(ctx, c)
+    ctx.extra["enumerated_sizes"] = "2^%d..2^%d values, below/above" % (BIG_EXPS[0], BIG_EXPS[-1])
     ctx.extra["enumerated_sides"] = "2..%d x %s" % (top, "/".join(MODES))
